@@ -148,3 +148,59 @@ fn c11_tf_component_is_finite_and_non_negative() {
     kani::cover!(b == 1.0 && dl > 1000, "full length normalisation on a long document");
     kani::cover!(p.k1.is_nan(), "NaN parameter sanitized first");
 }
+
+// ---- top_k_results (source slice regenerated by the driver on every run) ------------------------
+// The real body with its parameter re-typed from FxHashMap<u64, f32> to Vec<(u64, f32)> (hashbrown does
+// not finish under CBMC; a map is iterated exactly once, in arbitrary order, with distinct keys - which
+// is what the harness makes of the vector). Added after seeded change C11-1 (partition step without
+// the id tie-break).
+include!("/verif/slices/top_k_tail.rs");
+
+fn permuted(d: [(u64, f32); 3], p: u8) -> Vec<(u64, f32)> {
+    match p {
+        0 => vec![d[0], d[1], d[2]],
+        1 => vec![d[0], d[2], d[1]],
+        2 => vec![d[1], d[0], d[2]],
+        3 => vec![d[1], d[2], d[0]],
+        4 => vec![d[2], d[0], d[1]],
+        _ => vec![d[2], d[1], d[0]],
+    }
+}
+
+macro_rules! top_k_prefix {
+    ($name:ident, $k:expr, $p:expr) => {
+        #[kani::proof]
+        #[kani::unwind(6)]
+        fn $name() {
+            let s: [f32; 3] = [kani::any(), kani::any(), kani::any()];
+            let d = [(7u64, s[0]), (3u64, s[1]), (5u64, s[2])];
+            let full = Ix::slice_top_k_results(vec![d[0], d[1], d[2]], 3);
+            let got = Ix::slice_top_k_results(permuted(d, $p), $k);
+            assert!(full.len() == 3, "asking for everything returns everything");
+            assert!(Ix::compare_scored_docs(&full[0], &full[1]) == O::Less && Ix::compare_scored_docs(&full[1], &full[2]) == O::Less, "the full list is strictly ordered by (score desc, NaN last, id asc)");
+            assert!(got.len() == if $k < 3 { $k } else { 3 }, "at most k results, all of them when k exceeds the table");
+            let mut i = 0;
+            while i < got.len() {
+                assert!(got[i].0 == full[i].0 && got[i].1.to_bits() == full[i].1.to_bits(), "top-k is the first k of the full ranking, whatever order the score table was iterated in");
+                i += 1;
+            }
+            kani::cover!(s[0] == s[1] && s[1] == s[2], "three-way score tie");
+            kani::cover!(s[0].is_nan() && !s[1].is_nan(), "NaN score in the table");
+        }
+    };
+}
+// @check id=C11 tier=quick cap=300 needs=slice_topk role=top_k_prefix_and_order_independence harness=c11_top_1_prefix_order_1,c11_top_1_prefix_order_2,c11_top_1_prefix_order_3,c11_top_1_prefix_order_4,c11_top_1_prefix_order_5,c11_top_2_prefix_order_1,c11_top_2_prefix_order_2,c11_top_2_prefix_order_3,c11_top_2_prefix_order_4,c11_top_2_prefix_order_5,c11_top_4_returns_the_whole_ranking
+// @fns BM25Index::top_k_results (body verbatim, map parameter re-typed to a vector), BM25Index::compare_scored_docs
+// @bound three documents (ids 7, 3, 5) with arbitrary f32 scores (every bit pattern incl. NaN, +-0, inf); top_k 1 and 2 under each of the 5 non-identity iteration orders of the score table, compared with the full ranking (top_k = 3, identity order); top_k = 4. (A symbolic permutation or symbolic top_k did not finish in 300-600 s; concrete ones take seconds.)
+// @assume a hash map yields each key once, in some order (the vector has distinct ids; the orders are enumerated)
+top_k_prefix!(c11_top_1_prefix_order_1, 1, 1);
+top_k_prefix!(c11_top_1_prefix_order_2, 1, 2);
+top_k_prefix!(c11_top_1_prefix_order_3, 1, 3);
+top_k_prefix!(c11_top_1_prefix_order_4, 1, 4);
+top_k_prefix!(c11_top_1_prefix_order_5, 1, 5);
+top_k_prefix!(c11_top_2_prefix_order_1, 2, 1);
+top_k_prefix!(c11_top_2_prefix_order_2, 2, 2);
+top_k_prefix!(c11_top_2_prefix_order_3, 2, 3);
+top_k_prefix!(c11_top_2_prefix_order_4, 2, 4);
+top_k_prefix!(c11_top_2_prefix_order_5, 2, 5);
+top_k_prefix!(c11_top_4_returns_the_whole_ranking, 4, 3);
